@@ -40,6 +40,16 @@ POOL = [
     ("cold", [(15, "E", "x")]),
     ("cold", [(10, "N", "v1")]),
 ]
+#: the operators that take a FUTURE wherever they take an inner observable; with par["futures"] the pool members 1 and 3 are futures (a new
+#: one per arrival, resolved 20 / failed 15 ticks after it was handed over): `from_future` of it is the inner sequence
+FUTURE_OPS = ("merge_all", "flat_map", "flat_map_indexed", "switch_latest", "switch_map", "switch_map_indexed", "flat_map_latest")
+FUTURES = {1: [(20, "N", "f1"), (20, "C", None)], 3: [(15, "E", "xf")]}  # (truthy: concurrent.futures itself tests `if self._exception`)
+
+
+def pool_of(par):
+    if not par.get("futures"):
+        return POOL
+    return [("future", FUTURES[i]) if i in FUTURES else m for i, m in enumerate(POOL)]
 
 
 class Boom(Exception):
@@ -48,6 +58,10 @@ class Boom(Exception):
 
     def __hash__(self):
         return hash(self.args)
+
+    def __bool__(self):
+        # the inner sequences fail with an exception object that is falsy (an aggregate error without details, say), the outer with a truthy one
+        return self.args != ("x",)
 
 
 def pick(op, v, i):
@@ -68,7 +82,34 @@ def run_real(op, tl, par):
     from reactivex.testing import ReactiveTest, TestScheduler
     s = TestScheduler()
     pool = []
-    for kind, msgs in POOL:
+    cancels = {}
+
+    class Pool(list):
+        def __getitem__(self, i):
+            m = list.__getitem__(self, i)
+            return m() if callable(m) else m
+    pool = Pool()
+
+    def future_member(pi, msgs):
+        import concurrent.futures
+
+        class F(concurrent.futures.Future):
+            def cancel(self_):
+                r = super().cancel() if not self_.done() else False
+                if r:
+                    cancels.setdefault(pi, []).append(int(s.clock))
+                return r
+
+        def make():
+            f = F()
+            (rt, k, v) = msgs[0]
+            s.schedule_relative(rt, lambda *_: None if f.done() else (f.set_result(v) if k == "N" else f.set_exception(Boom(v))))
+            return f
+        return make
+    for pi_, (kind, msgs) in enumerate(pool_of(par)):
+        if kind == "future":
+            pool.append(future_member(pi_, msgs))
+            continue
         if kind == "sync":
             def sub(o, sch=None, _m=msgs):
                 for (_t, k, v) in _m:
@@ -132,10 +173,10 @@ def run_real(op, tl, par):
         k = m.value.kind
         out.append((int(m.time), k, m.value.value if k == "N" else (m.value.exception.args[0] if k == "E" else None)))
     subs = {}
-    for i, p in enumerate(pool):
+    for i, p in enumerate(list.__iter__(pool)):
         if hasattr(p, "subscriptions"):
             subs[i] = sorted((int(x.subscribe), int(x.unsubscribe) if x.unsubscribe < 10 ** 9 else END) for x in p.subscriptions)
-    return {"out": out, "subs": subs}
+    return {"out": out, "subs": subs, "cancels": {k: sorted(v) for k, v in cancels.items()}}
 
 
 def reference(op, tl, par):
@@ -156,13 +197,14 @@ def reference(op, tl, par):
     else:
         for (t, k, v) in tl:
             heapq.heappush(q, (t, next(seq), "outer", (k, v)))
-    out, subs = [], {}
+    out, subs, cancels = [], {}, {}
+    pool_ = pool_of(par)
+    futs, resolved = {}, set()
     st = {"term": False, "outer_done": False, "active": 0, "queue": [], "latest": 0, "has": False, "live": {}, "i": 0, "ids": 0}
 
     def end_all(t):
-        for sid, (pi, t0) in list(st["live"].items()):
-            subs.setdefault(pi, []).append((t0, t))
-        st["live"].clear()
+        for sid in list(st["live"]):
+            end_inner(sid, t)
 
     def emit(t, k, v=None):
         if st["term"]:
@@ -175,11 +217,16 @@ def reference(op, tl, par):
     def end_inner(sid, t):
         if sid in st["live"]:
             pi, t0 = st["live"].pop(sid)
-            subs.setdefault(pi, []).append((t0, t))
+            if sid in futs:
+                if sid not in resolved:
+                    cancels.setdefault(futs[sid], []).append(t)  # a future that is still pending is cancelled when its subscription is released
+            else:
+                subs.setdefault(pi, []).append((t0, t))
 
     def inner_event(sid, t, k, v):
         if st["term"] or sid not in st["live"]:
             return
+        resolved.add(sid)
         if mode == "switch" and sid != st["latest"]:
             return
         if k == "N":
@@ -205,8 +252,10 @@ def reference(op, tl, par):
         sid = st["ids"]
         if mode == "switch":
             st["latest"] = sid
-        kind, msgs = POOL[pi]
-        if kind == "cold":
+        kind, msgs = pool_[pi]
+        if kind == "future":
+            futs[sid] = pi
+        if kind in ("cold", "future"):
             st["live"][sid] = (pi, t)
             for (rt, k, v) in msgs:
                 heapq.heappush(q, (t + rt, next(seq), "inner", (sid, k, v)))
@@ -251,7 +300,7 @@ def reference(op, tl, par):
     if not st["term"]:
         end_all(END)
     subs = {pi: sorted(v) for pi, v in subs.items() if pi >= 0}
-    return {"out": out, "subs": subs}
+    return {"out": out, "subs": subs, "cancels": {k: sorted(v) for k, v in cancels.items()}}
 
 
 def timelines(max_len, values=(0, 1, 2, 3, 4)):
@@ -285,7 +334,7 @@ def check(op, tl, par):
     try:
         real = run_real(op, tl, par)
     except Exception as e:  # noqa: BLE001
-        real = {"out": [("raised", type(e).__name__, str(e)[:100])], "subs": {}}
+        real = {"out": [("raised", type(e).__name__, str(e)[:100])], "subs": {}, "cancels": {}}
     ref = reference(op, tl, par)
     real_subs = {int(k): [tuple(x) for x in v] for k, v in real["subs"].items() if v}
     ref_subs = {int(k): [tuple(x) for x in v] for k, v in ref["subs"].items() if v}
@@ -293,6 +342,9 @@ def check(op, tl, par):
         return {"what": "output", "got": real["out"], "expected": ref["out"]}
     if real_subs != ref_subs:
         return {"what": "subscriptions of the inner sequences (pool index -> [subscribe, unsubscribe])", "got": real_subs, "expected": ref_subs}
+    rc, fc = ({int(k): list(v) for k, v in d.get("cancels", {}).items() if v} for d in (real, ref))
+    if rc != fc:
+        return {"what": "futures cancelled while pending (pool index -> times): a future whose subscription is released before it resolved is cancelled then", "got": rc, "expected": fc}
     return None
 
 
@@ -332,6 +384,8 @@ def main(argv):
         pars = list(PARS.get(op, [{}]))
         if op not in ("merge_nary", "merge_with"):
             pars += [dict(p_, sync_outer=True) for p_ in pars]
+        if op in FUTURE_OPS:
+            pars += [dict(p_, futures=True) for p_ in pars]
         for par in pars:
             if time.time() > t_end:
                 break
